@@ -193,11 +193,12 @@ Definition erase_images_row (r : nat) (cells : list cell) : list cmd :=
                            | _ => []
                            end) cells).
 
-(* clear(): erase the images the terminal shows, forget the terminal state (back buffer) and mark
-   everything Damaged; what was already drawn into the front buffer stays *)
+(* clear(): erase the images the terminal shows, forget the terminal state (back buffer), reset the
+   surface being drawn and mark everything Damaged (it is to be called before the next frame is
+   drawn: run_render does so, right after the poll) *)
 Definition rclear (s : rstate) : list cmd * rstate :=
   (concat (mapi erase_images_row (back s)),
-   mkrstate (rh s) (rw s) (front s) (gmake (rh s) (rw s) cell_default)
+   mkrstate (rh s) (rw s) (gmake (rh s) (rw s) cell_default) (gmake (rh s) (rw s) cell_default)
             (gmake (rh s) (rw s) MDamaged)).
 
 (* renderer.surface().clear(): the application dropped the frame it was drawing *)
